@@ -1000,7 +1000,7 @@ pub(crate) fn run_file(ctx: &mut Ctx) {
         Defect::VertexIdNotRow,
         Defect::DeclaredVerticesTooFew,
     ];
-    // corpus: witnesses of /repo e1afd64 (a gzip file cut off inside its first block, read with a declared
+    // corpus: witnesses of /repo 81bf7f8 (a gzip file cut off inside its first block, read with a declared
     // count, was an empty table: the edge file gave a network without edges, the vertex file no vertices)
     for which in [Defect::TruncatedEdgeGz, Defect::TruncatedVertexGz, Defect::None] {
         let Some(idx) = ctx.begin() else { continue };
